@@ -7,6 +7,8 @@ mod common;
 mod stylefmt;
 mod treegen;
 mod c02;
+mod c07;
+mod c19;
 mod c11;
 mod c10;
 mod c08;
@@ -75,6 +77,8 @@ fn main() {
     let mut out = Out::new(&out_dir);
     let extra = match prop.as_str() {
         "C02" => c02::run(&cfg, &mut out),
+        "C07" => c07::run(&cfg, &mut out),
+        "C19" => c19::run(&cfg, &mut out),
         "C11" => c11::run(&cfg, &mut out),
         "C10" => c10::run(&cfg, &mut out),
         "C08" => c08::run(&cfg, &mut out),
